@@ -72,8 +72,118 @@ def specToStr (x : Int) : String :=
   | some r => "ok " ++ optStr r
   | none => "ok ? !spec-failed"
 
-/-- C05 ops (see below) -/
-def dispatchCmp : Dispatch := fun _W _op _args => none
+-- ================================================================== C05 ops
+
+def isInline : TRepr → Bool
+  | .small _ => true
+  | .large _ => false
+
+def signStr (neg : Bool) : String := if neg then "-" else "+"
+
+def bytesHex (bs : List Nat) : String :=
+  "s:" ++ String.ofList (bs.flatMap fun b => [hexDigit (b / 16), hexDigit (b % 16)])
+
+/-- float operand of the `f.*` ops: `inf`, `-inf`, or significand/exponent; returns (repr, precision) -/
+def parseFloat (B : Nat) (s e p : String) : Option (FRepr × Nat) := do
+  let ex ← parseDec e; let pr ← parseDecNat p
+  if s = "inf" then pure (⟨0, 1⟩, 0)
+  else if s = "-inf" then pure (⟨0, -1⟩, 0)
+  else
+    let sg ← parseInt s
+    -- `FBig::from_parts`: precision = digits of the significand as given (at least 1), then normalize
+    let d := max (digitsNat B sg.natAbs) 1
+    if pr ≠ 0 ∧ pr < d then none
+    pure ((FRepr.mk sg ex).normalize B, if pr = 0 then d else pr)
+
+def exactDigits (B : Nat) (s : Int) : Nat := digitsNat B s.natAbs
+
+def ordRev : Ordering → Ordering := Ordering.swap
+
+/-- `Repr::reduce2`: strip the common power of two (what `Relaxed::from_parts` does) -/
+def reduce2 (q : QRepr) : QRepr :=
+  if q.num = 0 then ⟨0, 1⟩ else
+  let k := min (tzWord (Nat.log2 q.num.natAbs + 1) q.num.natAbs) (tzWord (Nat.log2 q.den + 1) q.den)
+  ⟨q.num / (2 : Int) ^ k, q.den / 2 ^ k⟩
+
+def dispatchCmp : Dispatch := fun W op args =>
+  match op, args with
+  | "c.routes", [a] => do
+    let x ← parseNat a
+    let r := ofNat W x
+    pure ("ok " ++ boolStr (isInline r) ++ " " ++ decStr (r.words W).length ++ " routes-agree"
+      ++ (if r.Canon W then "" else " !model-noncanon"))
+  | "ci.routes", [a] => do
+    let x ← parseInt a
+    let r := sOfInt W x
+    pure ("ok " ++ signStr r.neg ++ " " ++ boolStr (isInline r.mag) ++ " " ++ decStr (r.mag.words W).length
+      ++ " routes-agree" ++ (if SCanon W r then "" else " !model-noncanon"))
+  | "c.cmp", [a, b, _, _] => do
+    let x ← parseInt a; let y ← parseInt b
+    let sx := sOfInt W x; let sy := sOfInt W y
+    let m := "ok " ++ boolStr (sx.beq W sy) ++ " " ++ ordStr (sx.cmp sy) ++ " " ++ ordStr (sy.cmp sx) ++ " "
+      ++ boolStr (decide (sx.hashFeed W = sy.hashFeed W))
+    let s := "ok " ++ boolStr (decide (x = y)) ++ " " ++ ordStr (compare x y) ++ " " ++ ordStr (compare y x) ++ " "
+      ++ boolStr (decide (x = y))
+    pure (chk m s)
+  | "cu.cmp", [a, b, _, _] => do
+    let x ← parseNat a; let y ← parseNat b
+    let sx : SRepr := ⟨false, ofNat W x⟩; let sy : SRepr := ⟨false, ofNat W y⟩
+    let m := "ok " ++ boolStr (sx.beq W sy) ++ " " ++ ordStr (sx.mag.cmp sy.mag) ++ " " ++ ordStr (sy.mag.cmp sx.mag) ++ " "
+      ++ boolStr (decide (sx.hashFeed W = sy.hashFeed W))
+    let s := "ok " ++ boolStr (decide (x = y)) ++ " " ++ ordStr (compare x y) ++ " " ++ ordStr (compare y x) ++ " "
+      ++ boolStr (decide (x = y))
+    pure (chk m s)
+  | "c.ones", [n] => do
+    let k ← parseDecNat n
+    let o := reprOnes W codeFx k
+    let r := ofNat W (2 ^ k - 1)
+    let so : SRepr := ⟨false, o⟩; let sr : SRepr := ⟨false, r⟩
+    let m := "ok " ++ boolStr (isInline o) ++ " " ++ decStr (o.words W).length ++ " " ++ boolStr (so.beq W sr) ++ " "
+      ++ ordStr (o.cmp r) ++ " " ++ boolStr (decide (so.hashFeed W = sr.hashFeed W))
+    let s := "ok " ++ boolStr (isInline r) ++ " " ++ decStr (r.words W).length ++ " true eq true"
+    pure (chk m s)
+  | "c.hashfeed", [a] => do
+    let x ← parseInt a
+    pure ("ok " ++ bytesHex (((sOfInt W x).hashFeed W).bytes W))
+  | "f.cmp", [b, sa, ea, pa, sb, eb, pb] => do
+    let B ← b.toNat?
+    if B < 2 then none
+    let (x, px) ← parseFloat B sa ea pa
+    let (y, py) ← parseFloat B sb eb pb
+    let c := reprCmpSameBase B (exactDigits B) x y (some (px, py))
+    let c' := reprCmpSameBase B (exactDigits B) y x (some (py, px))
+    let m := "ok " ++ boolStr (fbigEq x y) ++ " " ++ ordStr c ++ " " ++ ordStr c'
+    let sc := specFCmp B x y
+    let s := "ok " ++ boolStr (sc == .eq) ++ " " ++ ordStr sc ++ " " ++ ordStr (specFCmp B y x)
+    pure (chk m s)
+  | "f.basecmp", [sa, ea, pa, p10, sb, eb] => do
+    let sg ← parseInt sa; let ex ← parseDecNat ea; let _ ← parseDecNat pa; let pc ← parseDecNat p10
+    -- `with_base::<10>` of a binary float with a small non-negative exponent is the exact integer
+    let x := (FRepr.mk (sg * (2 : Int) ^ ex) 0).normalize 10
+    let (y, py) ← parseFloat 10 sb eb "d:0"
+    let c := reprCmpSameBase 10 (exactDigits 10) x y (some (pc, py))
+    let c' := reprCmpSameBase 10 (exactDigits 10) y x (some (py, pc))
+    let m := "ok " ++ boolStr (fbigEq x y) ++ " " ++ ordStr c ++ " " ++ ordStr c'
+    let sc := specFCmp 10 x y
+    let s := "ok " ++ boolStr (sc == .eq) ++ " " ++ ordStr sc ++ " " ++ ordStr (specFCmp 10 y x)
+    -- outside the hypothesis of the float comparison theorem (`digits ≤ precision`) the mirrored
+    -- shortcut may be wrong: print what the property requires (recorded finding)
+    if pc ≠ 0 ∧ exactDigits 10 x.signif > pc then pure s else pure (chk m s)
+  | "q.cmp", [n1, d1, n2, d2] => do
+    let a : QRepr := ⟨← parseInt n1, ← parseNat d1⟩
+    let b : QRepr := ⟨← parseInt n2, ← parseNat d2⟩
+    if a.den = 0 ∨ b.den = 0 then pure "panic DivideByZero"
+    else
+      let xa := reduce2 a; let xb := reduce2 b
+      let ra := a.reduce; let rb := b.reduce
+      let m := "ok " ++ boolStr (reprEq xa xb) ++ " " ++ ordStr (reprCmp xa xb) ++ " " ++ ordStr (reprCmp xb xa)
+        ++ " | " ++ boolStr (rbigEq ra rb) ++ " " ++ ordStr (reprCmp ra rb) ++ " " ++ ordStr (reprCmp rb ra) ++ " "
+        ++ boolStr (rbigEq ra rb)
+      let e := specQEq a b; let c := specQCmp a b; let c' := specQCmp b a
+      let s := "ok " ++ boolStr e ++ " " ++ ordStr c ++ " " ++ ordStr c' ++ " | " ++ boolStr e ++ " " ++ ordStr c ++ " "
+        ++ ordStr c' ++ " " ++ boolStr e
+      pure (chk m s)
+  | _, _ => none
 
 def dispatchBits : Dispatch := fun W op args =>
   match op.splitOn ".", args with
